@@ -58,7 +58,7 @@ ACTION_CONSTRAINT EmitReplay
 CONFIGS = {
     # absent singleton, removal, dynamic dependencies, backdating through Half
     "dyn":    (["leaf:A", "leaf:B", "single", "top"], [0, 2], 4, 1, 0),
-    "eqw":    (["leaf:A", "byRef:x", "single"], [0, 1, 2], 4, 2, 0),
+    "eqw":    (["leaf:A", "byRef:x", "single"], [0, 1], 5, 2, 0),
     "eqw5":   (["leaf:A", "byRef:x", "single"], [0, 1, 2], 5, 2, 0),
     # tracked field + three levels
     "trk":    (["tsum", "single", "byKey:0"], [1], 5, 2, 0),
@@ -81,7 +81,7 @@ CONFIGS = {
 
 PLAN = {
     ("C01", "quick"): ["dyn", "trk", "memo"],
-    ("C02", "quick"): ["eqw", "dyn", "trk"],
+    ("C02", "quick"): ["eqw", "dyn"],
     ("C03", "quick"): ["gc1", "gc2"],
     ("C04", "quick"): ["twin"],
     ("C01", "thorough"): ["dyn", "trk", "memo", "eqw5", "dyn6", "outer", "gc3"],
@@ -141,8 +141,11 @@ POSTCONDITION AllConsumed
         for t, v in r.printed:
             if t == "BAD":
                 bads.append((v["id"], v["at"], v["bad"], v["op"]))
-            elif t in ("PRECONDITION", "UNCONSUMED"):
-                raise ToolError(f"history outside the property's domain ({t} {v}) in {path}")
+            elif t == "PRECONDITION":
+                # only possible for a history on which the implementation already deviated from layer B
+                chk.drift({"left_domain": v, "origin": tag})
+            elif t == "UNCONSUMED":
+                raise ToolError(f"trace validation stopped early ({v}) in {path}")
         chk.cov["traces_validated_against_impl"] += len(part)
     return bads
 
